@@ -393,7 +393,7 @@ class DHCPD (EventMixin):
       return
 
     t = p.options.get(p.MSG_TYPE_OPT)
-    if t is None:
+    if p.msg_type is None:
       return
 
     pool = self._get_pool(event)
